@@ -210,6 +210,32 @@ def r_location(ctx):
                           "%s: returns Ok with state.data_location = %r (was 'root'): subsequent errors of this map carry a stale location" % (row["key"], row["location_after"]))
 
 
+def rfc6901(seg):
+    return seg.replace("~", "~0").replace("/", "~1")
+
+
+def r_pointer(ctx):
+    import valtables as vt
+    rid = "C14.pointer"
+    ctx.rule(rid, "the location segment the JSON validator appends for a map key resolves to that member: a key is appended as one "
+                  "reference token of the slash-separated path, with `~` and `/` inside the key escaped (RFC 6901: ~0, ~1) — otherwise the "
+                  "location of an error under the key `a/b` reads as member b of member a, which does not exist (validate_object_value "
+                  "interpreted on maps containing the key, under both ast-span twins)", floor=6)
+    for cfgname in ("default", "no-ast-span"):
+        for key in ("k", "a/b", "t~x", "a/b~c/"):
+            got, fi = vt.present_key_location(ctx.facts, key, cfgname)
+            k = "%s|%r" % (cfgname, key)
+            if isinstance(got, tuple):
+                ctx.incomplete_msg(rid, "%s: %s" % (k, got[1]))
+                continue
+            ctx.site(rid, k, fi.file, fi.line, {"location": got})
+            want = "/outer/" + rfc6901(key)
+            if got != want:
+                kind = "plain" if key == "k" else ("slash" if "/" in key and "~" not in key else ("tilde" if "/" not in key else "both"))
+                ctx.violation(rid, "%s|%s" % (cfgname, kind), fi.file, fi.line, "an error under the key %r is located at %r; as a slash-separated path that "
+                              "resolves to the member it must be %r" % (key, got, want))
+
+
 PURE_FILES = ["src/validator/json.rs", "src/validator/cbor.rs", "src/validator/mod.rs", "src/validator/control.rs", "src/validator/cbor_value.rs",
               "src/validator/csv_validator.rs", "src/pest_bridge.rs", "src/ast/mod.rs", "src/ast/parent.rs", "src/token.rs", "src/parser.rs", "src/visitor.rs"]
 IMPURE_PATHS = ("SystemTime", "Instant", "rand::", "thread_rng", "std::env", "env::var", "thread_local", "RandomState", "AtomicUsize", "AtomicBool", "Mutex",
@@ -255,6 +281,7 @@ def r_pure(ctx):
 
 
 def run(ctx):
+    ctx.guarded("C14.pointer", r_pointer)
     ctx.guarded("C14.result.json", lambda c: cv.root_rule(c, "C14j", "json"))
     ctx.guarded("C14.result.cbor", lambda c: cv.root_rule(c, "C14c", "cbor"))
     ctx.guarded("C14.kinds", r_kinds)
